@@ -1230,14 +1230,69 @@ pub fn run(tier: &str, seed: u64, only: Option<&str>) -> Run {
         }
     }
 
-    for (mi, (map_id, text, native)) in maps.iter().enumerate() {
+    // shard the map list over a fixed number of threads (fixed, so that a run is deterministic
+    // given (tier, seed) whatever the machine); results are merged in shard order
+    let n_threads: usize = if only.is_some() { 1 } else if thorough { 12 } else { 4 };
+    let shards: Vec<Run> = std::thread::scope(|sc| {
+        let handles: Vec<_> = (0..n_threads)
+            .map(|t| {
+                let maps = &maps;
+                sc.spawn(move || {
+                    let mut run = Run::default();
+                    let mut lines = Lines::new(thorough);
+                    for v in lines.budget.values_mut() {
+                        *v /= n_threads;
+                    }
+                    lines.default_budget /= n_threads;
+                    for (mi, m) in maps.iter().enumerate() {
+                        if mi % n_threads == t {
+                            check_map(&mut run, &mut lines, mi, m, thorough, seed, only);
+                        }
+                    }
+                    run
+                })
+            })
+            .collect();
+        handles.into_iter().map(|h| h.join().unwrap_or_default()).collect()
+    });
+    for sh in shards {
+        merge(&mut run, sh);
+    }
+    run
+}
+
+fn merge(into: &mut Run, sh: Run) {
+    into.cases.extend(sh.cases);
+    into.impl_lines.extend(sh.impl_lines);
+    into.case_ids.extend(sh.case_ids);
+    into.repro.extend(sh.repro);
+    into.failures.extend(sh.failures);
+    into.evaluations += sh.evaluations;
+    into.nontrivial.extend(sh.nontrivial);
+    for x in sh.samples {
+        into.sample(x);
+    }
+    for (k, v) in sh.dist {
+        if k.starts_with("fields-per-struct:") {
+            let e = into.dist.entry(k).or_insert(0);
+            *e = (*e).max(v);
+        } else {
+            *into.dist.entry(k).or_insert(0) += v;
+        }
+    }
+    into.notes.extend(sh.notes);
+}
+
+fn check_map(run: &mut Run, lines: &mut Lines, mi: usize, m: &(String, String, u8), thorough: bool, seed: u64, only: Option<&str>) {
+    let (map_id, text, native) = m;
+    {
         let Ok(map) = decode(text) else {
             run.count("skipped:undecodable");
-            continue;
+            return;
         };
         if map.check_suspicion().is_err() {
             run.count("skipped:check_suspicion");
-            continue;
+            return;
         }
         let n_objects = map.hit_objects.len();
         let small = n_objects <= 14;
@@ -1279,13 +1334,12 @@ pub fn run(tier: &str, seed: u64, only: Option<&str>) -> Run {
                 for passed in prefixes {
                     let exhaustive = small && (thorough || si % 3 == 0);
                     let with_strains = passed.is_none() || si == 0;
-                    check_case(&mut run, &mut lines, &mut srng, &id, &map, text, mode, settings, passed, exhaustive, if thorough { 12 } else { 4 }, with_strains);
+                    check_case(run, lines, &mut srng, &id, &map, text, mode, settings, passed, exhaustive, if thorough { 12 } else { 4 }, with_strains);
                 }
                 if run.samples.len() < 6 && si == 1 {
                     run.sample(format!("{id}: {} objects, settings {}", n_objects, settings.describe()));
                 }
             }
         }
-    }
-    run
+        }
 }
